@@ -1030,7 +1030,9 @@ func contentSearchVals(k tamodel.Kind, n int) []Arg {
 
 func cmpVariants(k tamodel.Kind, n int, contentOnly bool) []*tamodel.Cmp {
 	isFloat := k == tamodel.Float32 || k == tamodel.Float64
-	cmps := []*tamodel.Cmp{nil, {Ret: "zero", At: -1}, {Ret: "nan", At: -1}, {Ret: "neg0", At: -1}}
+	// A comparator returning -0 is kept out of the alphabet: goja deliberately orders on it (its own unit test
+	// TestTypedArraySortComparatorReturnValueNegZero), see NOTES.md.
+	cmps := []*tamodel.Cmp{nil, {Ret: "zero", At: -1}, {Ret: "nan", At: -1}}
 	if !isFloat {
 		cmps = append(cmps, &tamodel.Cmp{Ret: "rev", At: -1}, &tamodel.Cmp{Ret: "mod4", At: -1})
 	}
